@@ -227,9 +227,8 @@ def go_stage(cfg, tier, seed, work, lines_file=None, only_lines=False, n_overrid
     n_total = 0 if only_lines else (n_override if n_override is not None else cfg["n"][tier])
     shards = 1 if only_lines else cfg.get("shards", {}).get(tier, 4)
     timeout = cfg.get("timeout", {}).get(tier, 600 if tier == "quick" else 3000)
-    for idx, run in enumerate(cfg["runs"]):
-        if isinstance(lines_file, dict) and only_lines and idx not in lines_file:
-            continue
+    def do_run(idx, run):
+        results, problems = [], []
         if reuse is not None and os.path.exists(os.path.join(work, f"harness_{reuse}.test")):
             # shrinking: the binary of this check run is still valid, do not rebuild it per round
             ok, out = True, ""
@@ -239,7 +238,7 @@ def go_stage(cfg, tier, seed, work, lines_file=None, only_lines=False, n_overrid
             ok, out, binp, pkgdir = build_harness(cfg, run, idx, work)
         if not ok:
             problems.append({"kind": "harness-build", "run": idx, "log": out[-6000:]})
-            continue
+            return results, problems
         share = run.get("share", 1.0)
         n_run = int(n_total * share)
         per = max(1, n_run // shards) if n_run else 0
@@ -273,6 +272,15 @@ def go_stage(cfg, tier, seed, work, lines_file=None, only_lines=False, n_overrid
                                          "log": (out2 or out)[-4000:]})
                 for i, o in cases:
                     results.append((idx, i, o))
+        return results, problems
+
+    todo = [(idx, run) for idx, run in enumerate(cfg["runs"])
+            if not (isinstance(lines_file, dict) and only_lines and idx not in lines_file)]
+    # the runs of one property (different packages) are built and executed side by side
+    with ThreadPoolExecutor(max_workers=max(1, len(todo))) as rex:
+        for rs, ps in rex.map(lambda t: do_run(*t), todo):
+            results.extend(rs)
+            problems.extend(ps)
     return results, problems
 
 
@@ -466,6 +474,7 @@ def check(prop, tier, seed, replay=None):
     os.makedirs(work, exist_ok=True)
     findings = load_findings(prop)
     lean = lean_stage(cfg)
+    stage_t = {"lean": time.time() - t0}
     if not lean["ok"]:
         log(f"[{prop}] Lean obligations NOT discharged: build_ok={lean['build_ok']} driver_ok={lean['driver_ok']} "
             f"bad_axioms={lean['bad']} missing={lean['missing']} forbidden={lean['forbidden']}")
@@ -498,11 +507,15 @@ def check(prop, tier, seed, replay=None):
         n_override = None
         if not lean["ok"] and tier == "quick":
             n_override = cfg["n"].get("thorough", cfg["n"]["quick"]) // 4
+        t1 = time.time()
         results, problems = go_stage(cfg, tier, seed, work, lines_file, only_lines, n_override)
-        if replay and len(cfg["runs"]) > 1:
-            pass
+        stage_t["harness"] = time.time() - t1
+        t1 = time.time()
         outs = driver_stage(cfg, results, work)
+        stage_t["driver"] = time.time() - t1
+        t1 = time.time()
         viol, kf_hits, stale = classify(cfg, results, outs, findings)
+        stage_t["classify"] = time.time() - t1
     for p in problems:
         log(f"[{prop}] harness problem: {p['kind']} run={p.get('run')}\n{p.get('log', '')[-3000:]}")
     rc = 0
@@ -548,6 +561,7 @@ def check(prop, tier, seed, replay=None):
     if not replay:
         write_evidence(cfg, tier, seed, lean, results, outs, viol, kf_hits, stale, problems, wall,
                        len(viol))
+    log(f"[{prop}] stages: " + " ".join(f"{k}={v:.0f}s" for k, v in stage_t.items()))
     log(f"[{prop}] tier={tier} seed={seed} cases={len(results)} violations={len(viol)} "
         f"known={sum(len(v) for v in kf_hits.values())} wall={wall:.1f}s")
     return rc
